@@ -378,6 +378,13 @@ func (ts *TermStore) Eq(a, b *Term) *Term {
 			}
 			return ts.And(parts...)
 		}
+		// ite(c, k1, rest) == k with constants k1, k: descend the chain (tables)
+		if b.IsConst() && a.Op == OpIte && a.Args[1].IsConst() && !a.Args[2].IsConst() && a.Args[2].Op == OpIte && iteChainLen(a) <= 300 {
+			return ts.Ite(a.Args[0], ts.Bool(a.Args[1].Val.Cmp(b.Val) == 0), ts.Eq(a.Args[2], b))
+		}
+		if a.IsConst() && b.Op == OpIte && b.Args[1].IsConst() && !b.Args[2].IsConst() && b.Args[2].Op == OpIte && iteChainLen(b) <= 300 {
+			return ts.Eq(b, a)
+		}
 		// ite(c, k1, k2) == k  with constants
 		if b.IsConst() && a.Op == OpIte && a.Args[1].IsConst() && a.Args[2].IsConst() {
 			e1 := a.Args[1].Val.Cmp(b.Val) == 0
@@ -413,6 +420,40 @@ func (ts *TermStore) EqRaw(a, b *Term) *Term {
 		a, b = b, a
 	}
 	return ts.mk(&Term{Op: OpEq, W: 0, Args: []*Term{a, b}})
+}
+
+// iteChainLen: length of a chain ite(c1,k1,ite(c2,k2,...k)) with constant
+// leaves; a large number if t is not such a chain.
+func iteChainLen(t *Term) int {
+	n := 0
+	for t.Op == OpIte && t.Args[1].IsConst() {
+		t = t.Args[2]
+		n++
+		if n > 1000 {
+			return n
+		}
+	}
+	if !t.IsConst() {
+		return 1 << 30
+	}
+	return n
+}
+
+// IteChain returns the conditions, values and default of a constant-leaf ite
+// chain, looking through a zero extension.
+func IteChain(t *Term) (conds []*Term, vals []*big.Int, def *big.Int, ok bool) {
+	if t.Op == OpConcat && len(t.Args) == 2 && isZero(t.Args[0]) {
+		t = t.Args[1]
+	}
+	if t.Op != OpIte || iteChainLen(t) > 300 {
+		return nil, nil, nil, false
+	}
+	for t.Op == OpIte {
+		conds = append(conds, t.Args[0])
+		vals = append(vals, t.Args[1].Val)
+		t = t.Args[2]
+	}
+	return conds, vals, t.Val, true
 }
 
 func (ts *TermStore) Ite(c, a, b *Term) *Term {
@@ -816,6 +857,13 @@ func (ts *TermStore) cmp(op Op, a, b *Term) *Term {
 	}
 	if a == b {
 		return ts.Bool(op == OpBvULe || op == OpBvSLe)
+	}
+	// comparison of a constant-leaf ite chain (table read) with a constant
+	if b.IsConst() && a.Op == OpIte && a.Args[1].IsConst() && (a.Args[2].IsConst() || a.Args[2].Op == OpIte) && iteChainLen(a) <= 300 {
+		return ts.Ite(a.Args[0], ts.cmp(op, a.Args[1], b), ts.cmp(op, a.Args[2], b))
+	}
+	if a.IsConst() && b.Op == OpIte && b.Args[1].IsConst() && (b.Args[2].IsConst() || b.Args[2].Op == OpIte) && iteChainLen(b) <= 300 {
+		return ts.Ite(b.Args[0], ts.cmp(op, a, b.Args[1]), ts.cmp(op, a, b.Args[2]))
 	}
 	switch op {
 	case OpBvULt:
